@@ -7,6 +7,15 @@
  * The nil-fill loops are closed with loop invariants over the ghost index (DESIGN R2): the slot count is unbounded up to
  * janet_verify's limit 2^24 and the stack size up to 2^30 slots. */
 #include "fib_resume.h"
+/* the frame header (JanetStackFrame, 4 slots below the frame) read slot-wise; layout lemma asserted in the harnesses:
+ * func @0, pc @8, env @16, prevframe @24 (low half of the last slot), flags @28 (high half) */
+#define HDR_FUNC(f) ((f)->data[(f)->frame - 4].pointer)
+#define HDR_PC(f) ((f)->data[(f)->frame - 3].pointer)
+#define HDR_ENV(f) ((f)->data[(f)->frame - 2].pointer)
+#define HDR_PREV_FLAGS(f) ((f)->data[(f)->frame - 1].u64)
+#define HDR_LAYOUT_LEMMA __CPROVER_assert(sizeof(JanetStackFrame) == 4 * sizeof(Janet) && sizeof(Janet) == 8 && offsetof(JanetStackFrame, func) == 0 && \
+   offsetof(JanetStackFrame, pc) == 8 && offsetof(JanetStackFrame, env) == 16 && offsetof(JanetStackFrame, prevframe) == 24 && \
+   offsetof(JanetStackFrame, flags) == 28, "C05 frames: layout of the frame header as read by the contracts")
 #define FIB_NILBITS 0xFFF8800000000001ul
 #define FIB_STACK_LIMIT ((1 << 30) - (1 << 24) - 2 * JANET_FRAME_SIZE)
 #define FRAME_OF(f) ((JanetStackFrame *)((f)->data + (f)->frame - JANET_FRAME_SIZE))
@@ -18,6 +27,11 @@ void fib_setcapacity_c(JanetFiber *fiber, int32_t n)
 /* PROVED at the call sites: the requested size is positive and did not wrap */
 __CPROVER_requires(n > 0 && n >= fiber->capacity)
 __CPROVER_assigns(fiber->capacity, fiber->data)
+#ifdef FIB_REALLOC_FREES
+/* realloc: the old block is gone (every pointer into it is dangling) */
+__CPROVER_frees(fiber->data)
+__CPROVER_ensures(__CPROVER_was_freed(__CPROVER_old(fiber->data)))
+#endif
 __CPROVER_ensures(fiber->capacity == n)
 __CPROVER_ensures(__CPROVER_is_fresh(fiber->data, (size_t) n * sizeof(Janet)))
 ;
@@ -67,8 +81,8 @@ __CPROVER_ensures(__CPROVER_return_value == 0 ==>
     fiber->stacktop == __CPROVER_old(fiber->stackstart) + func->def->slotcount + JANET_FRAME_SIZE && fiber->stacktop <= fiber->capacity))
 /* frame chain: the new header links back to the frame that was current, and describes func */
 __CPROVER_ensures(__CPROVER_return_value == 0 ==>
-   (FRAME_OF(fiber)->prevframe == __CPROVER_old(fiber->frame) && FRAME_OF(fiber)->func == func && FRAME_OF(fiber)->pc == func->def->bytecode &&
-    FRAME_OF(fiber)->env == (void *)0 && FRAME_OF(fiber)->flags == 0))
+   (HDR_FUNC(fiber) == func && HDR_PC(fiber) == func->def->bytecode && HDR_ENV(fiber) == (void *)0 &&
+    HDR_PREV_FLAGS(fiber) == (uint64_t)(uint32_t) __CPROVER_old(fiber->frame)))
 /* new frame slots nil-filled */
 __CPROVER_ensures((__CPROVER_return_value == 0 && g_idx >= __CPROVER_old(fiber->stacktop) && g_idx < fiber->stacktop &&
                    !(IS_VARARG && g_idx == fiber->frame + func->def->arity)) ==> fiber->data[g_idx].u64 == FIB_NILBITS)
@@ -78,6 +92,9 @@ WF_FRAME_REQUIRES
 /* the frame being replaced has a header */
 __CPROVER_requires(fiber->frame >= JANET_FRAME_SIZE)
 __CPROVER_assigns(fiber->stackstart, fiber->stacktop, fiber->capacity, fiber->data, __CPROVER_object_whole(fiber->data))
+#ifdef FIB_REALLOC_FREES
+__CPROVER_frees(fiber->data)
+#endif
 __CPROVER_ensures(__CPROVER_return_value == (ARITY_OK_OLD ? 0 : 1))
 __CPROVER_ensures(__CPROVER_return_value == 1 ==>
    (fiber->stackstart == __CPROVER_old(fiber->stackstart) &&
@@ -87,8 +104,10 @@ __CPROVER_ensures(__CPROVER_return_value == 1 ==>
 __CPROVER_ensures(__CPROVER_return_value == 0 ==>
    (fiber->stackstart == fiber->stacktop && fiber->stacktop == fiber->frame + func->def->slotcount + JANET_FRAME_SIZE && fiber->stacktop <= fiber->capacity))
 __CPROVER_ensures(__CPROVER_return_value == 0 ==>
-   (FRAME_OF(fiber)->func == func && FRAME_OF(fiber)->pc == func->def->bytecode && FRAME_OF(fiber)->env == (void *)0 &&
-    (FRAME_OF(fiber)->flags & JANET_STACKFRAME_TAILCALL)))
+   (HDR_FUNC(fiber) == func && HDR_PC(fiber) == func->def->bytecode && HDR_ENV(fiber) == (void *)0 &&
+    ((HDR_PREV_FLAGS(fiber) >> 32) & JANET_STACKFRAME_TAILCALL) &&
+    /* the link to the caller's frame is untouched */
+    (uint32_t) HDR_PREV_FLAGS(fiber) == (uint32_t) __CPROVER_old(fiber->data[fiber->frame - 1].u64)))
 /* locals beyond the moved arguments are nil */
 __CPROVER_ensures((__CPROVER_return_value == 0 && !IS_VARARG &&
                    g_idx >= fiber->frame + (__CPROVER_old(fiber->stacktop) - __CPROVER_old(fiber->stackstart)) &&
@@ -99,6 +118,7 @@ __CPROVER_ensures((__CPROVER_return_value == 0 && IS_VARARG && g_idx > fiber->fr
 void h_funcframe(void) {
   JanetFiber *f; JanetFunction *fn;
   __CPROVER_assert(FIB_NILBITS == (janet_nanbox_tag(JANET_NIL) | 1), "C05 frames: nil bit pattern of the loop invariant is janet_wrap_nil()");
+  HDR_LAYOUT_LEMMA;
   int r = janet_fiber_funcframe(f, fn);
   REACH("janet_fiber_funcframe returns");
   if (r == 0) REACH("janet_fiber_funcframe pushes a frame");
@@ -106,6 +126,7 @@ void h_funcframe(void) {
 }
 void h_funcframe_tail(void) {
   JanetFiber *f; JanetFunction *fn;
+  HDR_LAYOUT_LEMMA;
   int r = janet_fiber_funcframe_tail(f, fn);
   REACH("janet_fiber_funcframe_tail returns");
   if (r == 0) REACH("janet_fiber_funcframe_tail replaces the frame");
